@@ -120,6 +120,68 @@ impl<T, N: ArrayLength> Slots<T, N> {
     pub open spec fn elems(&self) -> Seq<T> { Seq::new(N::n() as nat, |k: int| self.view()[k].unwrap()) }
 }
 
+// ---- whole-array moves into a longer / out of a whole array (append, prepend, pop, split, concat) ----
+// An output buffer MaybeUninit<GenericArray<T, L>> of L element slots, and a typed cursor into it (rule R-ptr in elements).
+pub struct OutBuf<T> { pub slots: Seq<Option<T>> }
+#[derive(Clone, Copy)]
+pub struct Cur { pub off: usize, pub stride: usize }
+
+impl<T> OutBuf<T> {
+    // MaybeUninit::<GenericArray<T, L>>::uninit()
+    #[verifier::external_body]
+    pub fn uninit(len: usize) -> (r: Self) ensures r.slots.len() == len, forall|k: int| 0 <= k < len ==> (#[trigger] r.slots[k]).is_none() { unimplemented!() }
+    // buf.as_mut_ptr() as *mut X: cursor at element 0, pointee spanning `stride` elements
+    pub fn as_mut_ptr(&self, stride: usize) -> (c: Cur) ensures c.off == 0, c.stride == stride { Cur { off: 0, stride } }
+    // ptr::write(cur as *mut GenericArray<T, K>, array): K elements, all inside the buffer, over slots that hold nothing
+    #[verifier::external_body]
+    pub fn write_array(&mut self, c: Cur, src: Seq<T>)
+        requires c.off + src.len() <= old(self).slots.len(), forall|k: int| c.off <= k < c.off + src.len() ==> (#[trigger] old(self).slots[k]).is_none(),
+        ensures final(self).slots.len() == old(self).slots.len(),
+            forall|k: int| 0 <= k < old(self).slots.len() ==> #[trigger] final(self).slots[k] == (if c.off <= k < c.off + src.len() { Some(src[k - c.off]) } else { old(self).slots[k] }),
+    { unimplemented!() }
+    // ptr::write(cur as *mut T, v)
+    #[verifier::external_body]
+    pub fn write_elem(&mut self, c: Cur, v: T)
+        requires c.off < old(self).slots.len(), old(self).slots[c.off as int].is_none(),
+        ensures final(self).slots == old(self).slots.update(c.off as int, Some(v)),
+    { unimplemented!() }
+    // buf.assume_init(): UB unless every slot is initialised
+    #[verifier::external_body]
+    pub fn assume_init(self) -> (r: Seq<T>)
+        requires forall|k: int| 0 <= k < self.slots.len() ==> (#[trigger] self.slots[k]).is_some(),
+        ensures r.len() == self.slots.len(), forall|k: int| 0 <= k < r.len() ==> #[trigger] r[k] == self.slots[k].unwrap(),
+    { unimplemented!() }
+}
+impl Cur {
+    // cur.add(k) / cur.offset(k): k pointees further
+    pub fn add(self, k: usize) -> (c: Cur) requires self.off + k * self.stride <= usize::MAX, ensures c.off == self.off + k * self.stride, c.stride == self.stride
+    { Cur { off: self.off + k * self.stride, stride: self.stride } }
+    // `as *mut X`: same address, new pointee extent
+    pub fn cast(self, stride: usize) -> (c: Cur) ensures c.off == self.off, c.stride == stride { Cur { off: self.off, stride } }
+}
+// a whole array wrapped in ManuallyDrop whose elements are moved out piecewise with ptr::read
+pub struct Whole<T> { pub slots: Seq<Option<T>> }
+impl<T> Whole<T> {
+    #[verifier::external_body]
+    pub fn new(a: Seq<T>) -> (r: Self) ensures r.slots.len() == a.len(), forall|k: int| 0 <= k < a.len() ==> #[trigger] r.slots[k] == Some(a[k]) { unimplemented!() }
+    pub fn as_ptr(&self) -> (c: Cur) ensures c.off == 0, c.stride == 1 { Cur { off: 0, stride: 1 } }
+    // ptr::read(cur as *const GenericArray<T, K>): K elements inside the array, each still owned here (else: duplicate)
+    #[verifier::external_body]
+    pub fn read_array(&mut self, c: Cur, k: usize) -> (r: Seq<T>)
+        requires c.off + k <= old(self).slots.len(), forall|j: int| c.off <= j < c.off + k ==> (#[trigger] old(self).slots[j]).is_some(),
+        ensures r.len() == k, forall|j: int| 0 <= j < k ==> #[trigger] r[j] == old(self).slots[c.off + j].unwrap(),
+            final(self).slots.len() == old(self).slots.len(),
+            forall|j: int| 0 <= j < old(self).slots.len() ==> #[trigger] final(self).slots[j] == (if c.off <= j < c.off + k { None } else { old(self).slots[j] }),
+    { unimplemented!() }
+    #[verifier::external_body]
+    pub fn read_elem(&mut self, c: Cur) -> (r: T)
+        requires c.off < old(self).slots.len(), old(self).slots[c.off as int].is_some(),
+        ensures r == old(self).slots[c.off as int].unwrap(), final(self).slots == old(self).slots.update(c.off as int, None),
+    { unimplemented!() }
+    // end of scope of the ManuallyDrop: whatever is still owned here leaks
+    pub fn scope_exit(&self) requires forall|j: int| 0 <= j < self.slots.len() ==> (#[trigger] self.slots[j]).is_none() {}
+}
+
 
 // ===== extracted: src/sequence.rs =====
 
@@ -209,6 +271,152 @@ impl<T, N: ArrayLength> Slots<T, N> {
         {
             PanicOr::Ret(swap_remove_unchecked::<T, N>(this, idx))
         }
+    }
+
+    // extracted from src/sequence.rs:202  `fn append(self, last: T) -> Self::Longer`
+    pub fn append<T, N: ArrayLength>(this: Seq<T>, last: T) -> (ret: Seq<T>)
+        requires
+            this.len() == N::n(),
+            N::n() < usize::MAX,
+        ensures
+            ret == this.push(last), /*OB:append.post.as-Vec-push:C09,C03*/
+    {
+        let __ret = {
+            let mut longer = OutBuf::uninit(N::usize_() + 1);
+            let out_ptr = longer.as_mut_ptr(N::usize_());
+            {
+                longer.write_array(out_ptr, this);
+                longer.write_elem(out_ptr.add(1).cast(1), last);
+                longer.assume_init()
+            }
+        };
+        proof {
+            assert(__ret =~= this.push(last));
+        }
+        __ret
+    }
+
+    // extracted from src/sequence.rs:218  `fn prepend(self, first: T) -> Self::Longer`
+    pub fn prepend<T, N: ArrayLength>(this: Seq<T>, first: T) -> (ret: Seq<T>)
+        requires
+            this.len() == N::n(),
+            N::n() < usize::MAX,
+        ensures
+            ret == seq![first] + this, /*OB:prepend.post.as-Vec-insert-0:C09,C03*/
+    {
+        let __ret = {
+            let mut longer = OutBuf::uninit(N::usize_() + 1);
+            let out_ptr = longer.as_mut_ptr(1);
+            {
+                longer.write_elem(out_ptr, first);
+                longer.write_array(out_ptr.add(1).cast(N::usize_()), this);
+                longer.assume_init()
+            }
+        };
+        proof {
+            assert(__ret =~= seq![first] + this);
+        }
+        __ret
+    }
+
+    // extracted from src/sequence.rs:244  `fn pop_back(self) -> (Self::Shorter, T)`
+    pub fn pop_back<T, N: ArrayLength>(this: Seq<T>) -> (ret: (Seq<T>, T))
+        requires
+            this.len() == N::n(),
+            N::n() >= 1,
+        ensures
+            ret.0 == this.drop_last() && ret.1 == this.last(), /*OB:pop_back.post.as-Vec-pop:C09,C03*/
+    {
+        let __ret = {
+            let mut whole = Whole::new(this);
+            {
+                let __c0 = whole.as_ptr();
+                let init = whole.read_array(__c0, N::usize_() - 1);
+                let __c1 = whole.as_ptr().add(N::usize_() - 1);
+                let last = whole.read_elem(__c1);
+                whole.scope_exit() /*OB:pop_back.every-element-moved-to-exactly-one-output:C03*/;
+                (init, last)
+            }
+        };
+        proof {
+            assert(__ret.0 =~= this.drop_last());
+        }
+        __ret
+    }
+
+    // extracted from src/sequence.rs:255  `fn pop_front(self) -> (T, Self::Shorter)`
+    pub fn pop_front<T, N: ArrayLength>(this: Seq<T>) -> (ret: (T, Seq<T>))
+        requires
+            this.len() == N::n(),
+            N::n() >= 1,
+        ensures
+            ret.0 == this.first() && ret.1 == this.drop_first(), /*OB:pop_front.post.as-Vec-remove-0:C09,C03*/
+    {
+        let __ret = {
+            let mut whole = Whole::new(this);
+            {
+                let __c0 = whole.as_ptr();
+                let head = whole.read_elem(__c0);
+                let __c1 = whole.as_ptr().add(1);
+                let tail = whole.read_array(__c1, N::usize_() - 1);
+                whole.scope_exit() /*OB:pop_front.every-element-moved-to-exactly-one-output:C03*/;
+                (head, tail)
+            }
+        };
+        proof {
+            assert(__ret.1 =~= this.drop_first());
+        }
+        __ret
+    }
+
+    // extracted from src/sequence.rs:293  `fn split(self) -> (Self::First, Self::Second)`
+    pub fn split<T, N: ArrayLength, K: ArrayLength>(this: Seq<T>) -> (ret: (Seq<T>, Seq<T>))
+        requires
+            this.len() == N::n(),
+            K::n() <= N::n(),
+        ensures
+            ret.0 == this.subrange(0, K::n() as int) && ret.1 == this.subrange(K::n() as int, N::n() as int), /*OB:split.post.as-split_at-K:C09,C03*/
+    {
+        let __ret = {
+            {
+                let mut whole = Whole::new(this);
+                let __c0 = whole.as_ptr();
+                let head = whole.read_array(__c0, K::usize_());
+                let __c1 = whole.as_ptr().add(K::usize_());
+                let tail = whole.read_array(__c1, N::usize_() - K::usize_());
+                whole.scope_exit() /*OB:split.every-element-moved-to-exactly-one-output:C03*/;
+                (head, tail)
+            }
+        };
+        proof {
+            assert(__ret.0 =~= this.subrange(0, K::n() as int));
+            assert(__ret.1 =~= this.subrange(K::n() as int, N::n() as int));
+        }
+        __ret
+    }
+
+    // extracted from src/sequence.rs:371  `fn concat(self, rest: Self::Rest) -> Self::Output`
+    pub fn concat<T, N: ArrayLength, M: ArrayLength>(this: Seq<T>, rest: Seq<T>) -> (ret: Seq<T>)
+        requires
+            this.len() == N::n(),
+            rest.len() == M::n(),
+            N::n() + M::n() <= usize::MAX,
+        ensures
+            ret == this + rest, /*OB:concat.post.as-Vec-extend:C09,C03*/
+    {
+        let __ret = {
+            let mut output = OutBuf::uninit(N::usize_() + M::usize_());
+            let out_ptr = output.as_mut_ptr(N::usize_());
+            {
+                output.write_array(out_ptr, this);
+                output.write_array(out_ptr.add(1).cast(M::usize_()), rest);
+                output.assume_init()
+            }
+        };
+        proof {
+            assert(__ret =~= this + rest);
+        }
+        __ret
     }
 
 proof fn canary() { assert(false); } /*OB:canary:*/
